@@ -383,6 +383,8 @@ pub struct IlvOpts {
     pub c10: bool,
     /// use the state cache
     pub cache: bool,
+    /// preemption bound for scenarios with two threads of one call each (None: `bound`)
+    pub bound_two_calls: Option<usize>,
     /// wall clock cap per scenario
     pub max_secs: f64,
     pub max_execs: u64,
@@ -398,6 +400,8 @@ pub struct IlvStats {
     pub pruned: u64,
     pub capped: u64,
     pub vacuous: u64,
+    pub conflict_execs: u64,
+    pub single_outcome: u64,
     pub outcomes: u64,
     pub max_solo_steps: u64,
     pub panicked_execs: u64,
@@ -419,6 +423,8 @@ impl IlvStats {
         self.pruned += o.pruned;
         self.capped += o.capped;
         self.vacuous += o.vacuous;
+        self.conflict_execs += o.conflict_execs;
+        self.single_outcome += o.single_outcome;
         self.outcomes += o.outcomes;
         self.max_solo_steps = self.max_solo_steps.max(o.max_solo_steps);
         self.panicked_execs += o.panicked_execs;
@@ -463,6 +469,8 @@ pub struct Trace {
     pub calls: Vec<Vec<(Op, Res)>>,
     pub max_solo: u64,
     pub event_hash: u64,
+    /// two threads touched the same address and at least one of them wrote to it
+    pub conflict: bool,
 }
 
 pub struct Runner<'a> {
@@ -602,7 +610,10 @@ impl<'a> Runner<'a> {
             calls: vec![],
             max_solo: 0,
             event_hash: 0,
+            conflict: false,
         };
+        // per thread: (address, wrote)
+        let mut touched: Vec<Vec<(usize, bool)>> = vec![Vec::new(); n];
         let mut cur: u8 = 255;
         let mut solo: u64 = 0;
         let mut step: usize = 0;
@@ -667,6 +678,19 @@ impl<'a> Runner<'a> {
                 && self.rec.is_some()
             {
                 self.crash_check();
+            }
+            if let Some(ev) = pending[t] {
+                let w = ev.kind != Kind::Load;
+                if !tr.conflict {
+                    for (u, tu) in touched.iter().enumerate() {
+                        if u != t && tu.iter().any(|&(a, uw)| a / 8 == ev.addr / 8 && (w || uw)) {
+                            tr.conflict = true;
+                        }
+                    }
+                }
+                if !touched[t].contains(&(ev.addr, w)) {
+                    touched[t].push((ev.addr, w));
+                }
             }
             tr.event_hash = mix64(
                 tr.event_hash,
@@ -854,11 +878,17 @@ pub fn explore(sc: &Scenario, opts: &IlvOpts, col: &mut Collector) -> IlvStats {
             };
         }
     };
-    let bound = opts.bound;
+    let two_calls = sc.threads.len() == 2 && sc.threads.iter().all(|t| t.len() == 1);
+    let bound = match (two_calls, opts.bound_two_calls) {
+        (true, Some(b)) => b,
+        _ => opts.bound,
+    };
+    runner.opts.bound = bound;
     let mut outcomes: HashSet<u128> = HashSet::new();
     let mut stack: Vec<(Vec<u8>, usize)> = vec![(vec![], 0)]; // (prefix, preemptions used in prefix)
     let mut capped = false;
     let mut first = true;
+    let mut conflict_execs = 0u64;
     while let Some((prefix, used)) = stack.pop() {
         if runner.stats.executions >= opts.max_execs || t0.elapsed().as_secs_f64() > opts.max_secs {
             capped = true;
@@ -890,6 +920,9 @@ pub fn explore(sc: &Scenario, opts: &IlvOpts, col: &mut Collector) -> IlvStats {
         }
         if tr.cut.is_none() && !tr.panicked {
             outcomes.insert(tr.outcome);
+        }
+        if tr.conflict {
+            conflict_execs += 1;
         }
         for v in &tr.viol {
             let mut v = v.clone();
@@ -931,8 +964,13 @@ pub fn explore(sc: &Scenario, opts: &IlvOpts, col: &mut Collector) -> IlvStats {
     st.cache_states = runner.cache.len() as u64;
     st.outcomes = outcomes.len() as u64;
     st.capped = capped as u64;
-    if outcomes.len() <= 1 && sc.threads.len() > 1 && st.panicked_execs == 0 {
+    // vacuity guard: no execution in which two threads touched the same word with a write
+    if conflict_execs == 0 && sc.threads.len() > 1 {
         st.vacuous = 1;
+    }
+    st.conflict_execs = conflict_execs;
+    if outcomes.len() <= 1 {
+        st.single_outcome = 1;
     }
     if let Some(rec) = &runner.rec {
         st.crash_points = rec.points;
@@ -940,7 +978,8 @@ pub fn explore(sc: &Scenario, opts: &IlvOpts, col: &mut Collector) -> IlvStats {
     }
     st.bound_completed = if capped { 0 } else { bound.min(99) };
     st.per_scenario.push(json!({"scenario": sc.name, "executions": st.executions,
-        "outcomes": st.outcomes, "capped": capped, "secs": t0.elapsed().as_secs_f64(),
+        "preemption_bound": if bound == usize::MAX { json!("unbounded") } else { json!(bound) },
+        "outcomes": st.outcomes, "conflicting_executions": conflict_execs, "capped": capped, "secs": t0.elapsed().as_secs_f64(),
         "cache_states": st.cache_states, "pruned": st.pruned}));
     st.samples.push(json!({"scenario": sc.describe(), "executions": st.executions,
         "distinct_outcomes": st.outcomes}));
@@ -993,6 +1032,7 @@ pub fn replay(v: &Value) -> Result<Vec<String>, String> {
         crash: v["property"].as_str() == Some("C05"),
         c10: v["property"].as_str() == Some("C10"),
         cache: false,
+        bound_two_calls: None,
         max_secs: 60.0,
         max_execs: 1,
     };
